@@ -72,8 +72,11 @@ def runC12Case (c : CaseBlock) : IO Unit := do
     let wf := C12.wfB m
     if !accepted.isEmpty && !wf then
       let rs := C12.reasons m
+      -- a NaN sum is only reported on its own when no NaN probability explains it
+      let rs := if rs.contains "nan-transition-probability" then rs.filter (· != "nan-probability-sum") else rs
       let rs := if rs.isEmpty then ["unclassified"] else rs
-      IO.println s!"mon C12 FAIL {c.id} accepted-not-wellformed reasons={String.intercalate "," rs} paths={String.intercalate "," (accepted.map (·.1))}"
+      for r in rs do
+        IO.println s!"mon C12 FAIL {c.id} accepted-not-wellformed reason={r} paths={String.intercalate "," (accepted.map (·.1))}"
     -- one judgement on every path
     if !(vV == vN && (vS == vV || (vS == "ok-differs" && vV == "ok"))) then
       IO.println s!"mon C12 FAIL {c.id} paths-disagree validate={vV} new={vN} fromstr={vS}"
@@ -85,7 +88,7 @@ def runC12Case (c : CaseBlock) : IO Unit := do
       IO.println s!"mon C12 FAIL {c.id} framework-new-fails-on-accepted-machine result={vF}"
     if vF == "ok" && !(vV == "ok" && fracsOK) then
       IO.println s!"mon C12 FAIL {c.id} framework-new-accepts result={vF} validate={vV} fractions-ok={fracsOK}"
-    if vV == "panic" || vN == "panic" || vS == "panic" || vF == "panic" || vF == "hang" then
+    if [vV, vN, vS, vF].any (fun x => x == "panic" || x == "hang") then
       IO.println s!"mon C12 FAIL {c.id} construction-path-panicked validate={vV} new={vN} fromstr={vS} fwnew={vF}"
     IO.println s!"sig {c.id} {labelClass c.kind},{if acc then "accept" else "reject"},{if wf then "wf" else "notwf"}"
 
